@@ -64,7 +64,8 @@ class Gen:
         r = self.r
         if r.random() < 0.6:
             return ("int", str(r.choice([0, 1, -1, 42, 2**40, -(10**20), r.randint(-999, 999)])))
-        f = r.choice([0.5, -1.5, 1e16, 1e-7, 3.14, 2.0, -0.0, 1e100, 1.5e-05, 2.5e+16, 6.02e+23, -1.2345e-10, r.random() * 100])
+        f = r.choice([0.5, -1.5, 1e16, 1e-7, 3.14, 2.0, -0.0, 1e100, 1.5e-05, 2.5e+16, 6.02e+23, -1.2345e-10, r.random() * 100,
+                      0.30000000000000004, 1234567890123456.0, 1.0000000000000002e16, 5e-324, 1.7976931348623157e308, 0.1 + 0.2])
         return ("float", str(float(f)))
 
     def scalar(self):
